@@ -108,10 +108,11 @@ class AdvancedHTMLParser(HTMLParser):
 
 
     def _hasTagInParentLine(self, tag, root):
-        if tag == root or tag.parentNode == root:
-            return True
+        # True if #tag is a descendant of #root. #root itself is not below #root.
         if tag.parentNode is None:
             return False
+        if tag.parentNode == root:
+            return True
         return self._hasTagInParentLine(tag.parentNode, root)
 
     def _handleRootArg(self, root):
